@@ -580,10 +580,22 @@ def iso(abs_ms):
     return (EPOCH + datetime.timedelta(milliseconds=abs_ms)).strftime("%Y-%m-%dT%H:%M:%S.%f")[:-3] + "Z"
 
 
-def cli_args(cmd, src, dst, tree, o, chs=(), symbolic=False, comma=False, float_time=False, rel_end=False):
+def spell(ch, how):
+    """the same channel directory, spelled the way shells and users do (trailing slash from tab completion, ./, doubled slash)"""
+    if how == 1:
+        return ch + "/"
+    if how == 2:
+        return "./" + ch
+    if how == 3 and "/" in ch:
+        return ch.replace("/", "//", 1)
+    return ch
+
+
+def cli_args(cmd, src, dst, tree, o, chs=(), symbolic=False, comma=False, float_time=False, rel_end=False, spelling=0):
     """argument vector for digital_rf.drf_command.main"""
     base_ms = tree.base_s * 1000
     a = [cmd, src, dst]
+    chs = [spell(c, spelling) for c in chs]
     if chs:
         if comma:
             a += ["-c", ",".join(chs)]
@@ -637,7 +649,7 @@ class TransferWorld:
     def dst(self, d):
         return os.path.join(self.base, "dst%d" % d)
 
-    def run(self, cmd, o, chs=(), symbolic=False, comma=False, float_time=False, rel_end=False):
+    def run(self, cmd, o, chs=(), symbolic=False, comma=False, float_time=False, rel_end=False, spelling=0):
         from digital_rf import drf_command, list_drf
 
         tree, src = self.tree, self.src
@@ -646,7 +658,7 @@ class TransferWorld:
         dst = self.dst(d)
         os.makedirs(dst)
         s0 = self.snap
-        argv = cli_args(cmd, src, dst, tree, o, chs, symbolic, comma, float_time, rel_end)
+        argv = cli_args(cmd, src, dst, tree, o, chs, symbolic, comma, float_time, rel_end, spelling)
         # the equivalent listing, asked of the real lsdrf with the same options (the property's own wording)
         eq = []
         eq_raised = False
